@@ -153,6 +153,27 @@ CHECKS["C34"] = (
     "DESIGN.md §6 C34",
 )
 
+CHECKS["C25"] = (
+    "Lean 4 theorem: for every directory tree, every placement of ignore files and every pathspec behaviour, the walk (inner specs "
+    "scoped to their sub-tree, outer specs always active, ignored sub-directories pruned) returns exactly the files the statement "
+    "selects. The real paths_from_path is compared with the Lean walk (fed with match tables from the real pathspec) on enumerated "
+    "trees x ignore files at every level (both kinds, also two in one directory, nested, and in the parent) x gitignore patterns x "
+    "path spellings x working directories; spelling invariance is checked directly. One genuine defect repaired (fix: b1ede77).",
+    "Lean 4 proof (induction over the tree) + exhaustive small-scope differential correspondence with the real walk",
+    "Lean kernel; standard axioms; pathspec is a parameter (tables computed by the real library); os.walk order abstracted (result is sorted)",
+    "DESIGN.md §6 C25",
+)
+CHECKS["C26"] = (
+    "Lean 4 theorems over the write path as a sequence of file-system operations with a fault at any step: whatever fails (exception "
+    "or process death at stat/mkstemp/write/flush/fsync/close/chmod/move) the target holds its complete old or complete new content; "
+    "an exception never leaves a temp file; success keeps content and permissions; with a suffix the original is untouched. The real "
+    "_safe_create_replace_file is driven through the whole fault space (raising OSError/KeyboardInterrupt, dying in a forked child) "
+    "and compared with the model; end-to-end fixes check permissions, BOM and suffix.",
+    "Lean 4 proof by exhaustive case analysis over the finite fault space + fault-injection correspondence on the real function",
+    "Lean kernel; standard axioms; rename atomicity / no copy fallback of shutil.move / fsync durability are OS assumptions",
+    "DESIGN.md §6 C26",
+)
+
 NOT_YET = {}
 
 
